@@ -26,8 +26,15 @@ fn esc(s: &str) -> String {
     o
 }
 
+thread_local! {
+    static DEFAULTS: std::cell::Cell<(u64, f32, f32)> = std::cell::Cell::new((7, 0.25, 0.75));
+}
+
 fn run_case(case: &cases::Case, model: &HashMap<String, f32>) -> (Vec<Record>, Option<String>, bool) {
     let mut ctx = Ctx::new(Mode::Model, model.clone());
+    let (ds, lo, hi) = DEFAULTS.with(|d| d.get());
+    ctx.default_seed = ds;
+    ctx.default_range = (lo, hi);
     let r = ctx.catch(|ctx| (case.run)(ctx));
     (ctx.records.clone(), r.err(), ctx.assumes_ok)
 }
@@ -36,6 +43,7 @@ fn main() {
     let a: Vec<String> = std::env::args().collect();
     let (mut property, mut tier, mut seed, mut case_id, mut role, mut model_file) = (String::new(), Tier::Quick, 0u64, String::new(), String::new(), String::new());
     let (mut seeded, mut out, mut shard) = (None::<u64>, None::<String>, (0usize, 1usize));
+    let mut search = 0u64;
     let mut i = 1;
     while i < a.len() {
         match a[i].as_str() {
@@ -46,6 +54,7 @@ fn main() {
             "--role" => role = a[i + 1].clone(),
             "--model" => model_file = a[i + 1].clone(),
             "--seeded" => seeded = Some(a[i + 1].parse().unwrap()),
+            "--search" => search = a[i + 1].parse().unwrap(),
             "--out" => out = Some(a[i + 1].clone()),
             "--shard" => {
                 let (x, y) = a[i + 1].split_once('/').unwrap();
@@ -101,40 +110,58 @@ fn main() {
             }
         }
     }
-    let (records, panic, assumes_ok) = run_case(case, &model);
-    let verdict = |ok: bool, detail: String| {
+    // first the solver's model; if it does not reproduce (uninterpreted libm functions, rounding), search seeded
+    // assignments natively for a witness of the same role — the solver already decided `sat`, this only confirms it
+    let (ok, assumes_ok, detail) = evaluate(case, &model, &role);
+    let emit = |ok: bool, assumes_ok: bool, detail: String, how: &str| {
         println!(
-            "REPLAY case={} role=\"{}\" verdict={} assumptions_hold={} detail=\"{}\"",
+            "REPLAY case={} role=\"{}\" verdict={} witness={} assumptions_hold={} detail=\"{}\"",
             case_id,
             esc(&role),
             if ok { "REPRODUCED" } else { "NOT-REPRODUCED" },
+            how,
             assumes_ok,
             esc(&detail)
         );
     };
-    if role.starts_with("panic:") {
-        match panic {
-            Some(m) => verdict(true, format!("native panic: {}", m.lines().next().unwrap_or(""))),
-            None => verdict(false, "no native panic".into()),
-        }
+    if ok && assumes_ok {
+        emit(true, true, detail, "solver-model");
         return;
     }
-    let rec = records.iter().find(|r| r.role == role);
-    let rec = match rec {
+    for k in 1..=search {
+        DEFAULTS.with(|d| d.set((1000 + k, -2.0, 2.0)));
+        let empty = HashMap::new();
+        let (ok2, as2, d2) = evaluate(case, &empty, &role);
+        if ok2 && as2 {
+            emit(true, true, d2, &format!("seeded-assignment-{}", 1000 + k));
+            return;
+        }
+    }
+    emit(false, assumes_ok, detail, "none");
+}
+
+fn evaluate(case: &cases::Case, model: &HashMap<String, f32>, role: &str) -> (bool, bool, String) {
+    let (records, panic, assumes_ok) = run_case(case, model);
+    if role.starts_with("panic:") {
+        return match panic {
+            Some(m) => (true, assumes_ok, format!("native panic: {}", m.lines().next().unwrap_or(""))),
+            None => (false, assumes_ok, "no native panic".into()),
+        };
+    }
+    let rec = match records.iter().find(|r| r.role == role) {
         Some(r) => r.clone(),
         None => {
-            // the native run may have panicked before reaching the role
-            match panic {
-                Some(m) => verdict(false, format!("role not reached; native panic: {}", m.lines().next().unwrap_or(""))),
-                None => verdict(false, "role not reached on the native path".into()),
+            return match panic {
+                Some(m) => (false, assumes_ok, format!("role not reached; native panic: {}", m.lines().next().unwrap_or(""))),
+                None => (false, assumes_ok, "role not reached on the native path".into()),
             }
-            return;
         }
     };
     match (&rec.kind[..], &rec.grad) {
         ("grad", Some((_, var))) => {
             // central differences of the *real* forward pass in f32, at two step sizes
-            let base = *model.get(var).unwrap_or(&ctx::seeded(7, var, 0.25, 0.75));
+            let (ds, lo, hi) = DEFAULTS.with(|d| d.get());
+            let base = *model.get(var).unwrap_or(&ctx::seeded(ds, var, lo, hi));
             let fd = |h: f32| -> Option<f32> {
                 let mut lo = model.clone();
                 let mut hi = model.clone();
@@ -150,13 +177,13 @@ fn main() {
                 (Some(d1), Some(d2)) => {
                     let lhs = rec.lhs;
                     let scale = 1.0f32.max(lhs.abs()).max(d1.abs());
-                    let stable = (d1 - d2).abs() <= 0.05 * scale;
-                    let differs = (lhs - d1).abs() > 0.05 * scale && (lhs - d2).abs() > 0.05 * scale;
-                    verdict(stable && differs, format!("backprop={:e} central-diff={:e}/{:e} (d/d{})", lhs, d1, d2, var));
+                    let stable = (d1 - d2).abs() <= 0.004 * scale;
+                    let differs = (lhs - d1).abs() > 0.01 * scale && (lhs - d2).abs() > 0.01 * scale;
+                    (stable && differs, assumes_ok, format!("backprop={:e} central-diff={:e}/{:e} (d/d{})", lhs, d1, d2, var))
                 }
-                _ => verdict(false, "finite-difference re-run did not reach the role".into()),
+                _ => (false, assumes_ok, "finite-difference re-run did not reach the role".into()),
             }
         }
-        _ => verdict(!rec.ok, rec.detail.clone()),
+        _ => (!rec.ok, assumes_ok, rec.detail.clone()),
     }
 }
